@@ -33,6 +33,56 @@ PROPS = {
                 "end check was evaluated on a run with application commits; distinct = distinct SHA-256 of the event log",
         "assumptions": FLEET_ASSUME,
     },
+    "C06": {
+        "level": "exploration",
+        "profiles": [{"name": "fleet-image", "weight": 1}],
+        "rule": "each case is one seeded run of 1-3 real instances with 2-3 DBIs and multi-DBI application transactions, "
+                "application commits biased into the read-only dump of native mode, large values and header extension blocks; every "
+                "uploaded blob is decoded with the reference codec and compared with the harness's record of the uploader's LMDB at the "
+                "transaction id in its metadata; non-trivial = at least two snapshots checked and the application committed; distinct = "
+                "distinct SHA-256 of the event log",
+        "assumptions": FLEET_ASSUME,
+    },
+    "C14": {
+        "level": "exploration",
+        "profiles": [{"name": "fleet-header", "weight": 1}],
+        "rule": "each case is one seeded fleet run in which every value written by a Lightning Stream transaction is parsed by an "
+                "independent header parser (docs/schema-native.md); native applications write extension blocks; in two thirds of the "
+                "native runs a malformed value (too short, other version, missing extension blocks) is stored and the instance must stop "
+                "with an error without uploading it; non-trivial = at least one LS-written value was checked; distinct = distinct "
+                "SHA-256 of the event log",
+        "assumptions": FLEET_ASSUME + ["the byte-string universe of stored values is sampled through what simulated applications store, not by a dedicated fuzzer"],
+    },
 }
 
 ALL_PROFILES = sorted({p["name"] for c in PROPS.values() for p in c["profiles"]})
+
+
+SIM_NOTE = ("Assumes: LMDB's own durability/isolation (real LMDB, no torn pages), the yield points as the granularity of interleaving "
+            "(every bucket call, every blocking wake-up, the sync-loop decision points and the windows around LS's transactions), "
+            "sampling not enumeration: a clean batch is evidence, not proof.")
+
+MANIFEST_TEXT = {
+    "C01": {"text": "Seeded search over application histories, schedules and bucket faults for 2-4 real instances; after a fault-free drain "
+                    "the precondition of the property is established from observable facts and then all instances must hold identical logical "
+                    "content that is the max-timestamp version of everything ever written. Exploration is the right level: the property "
+                    "quantifies over unbounded histories and schedules.",
+            "note": SIM_NOTE, "technique": "deterministic simulation (fleet of real instances, seeded scheduler, fault injection) + LWW reference oracle"},
+    "C03": {"text": "Application commits are placed by the scheduler at every yield kind of the sync loop (biased to the txn-end -> env.Info windows); "
+                    "every LS transaction is compared with the state before it: it may change a key only to a version that wins LWW, and an "
+                    "uncaptured local write must survive.",
+            "note": SIM_NOTE, "technique": "deterministic simulation with scheduler-placed application commits + per-transaction invariant"},
+    "C06": {"text": "Every uploaded blob is decoded with the generated reference codec and compared with the harness's own record of the uploader's "
+                    "LMDB at the transaction id named in the metadata (content, DBI set and flags, no private DBIs, no extra bytes, name/meta/time monotone), "
+                    "with application commits scheduled inside the dump.",
+            "note": SIM_NOTE, "technique": "deterministic simulation + reference decode of every uploaded snapshot against recorded LMDB images"},
+    "C09": {"text": "Bounded liveness: whenever a sync loop has completed a full poll iteration without local disturbance, and at the end of the "
+                    "fault-free drain, every locally originated version must be in the instance's newest snapshot; Store failures below the retry "
+                    "budget are injected.",
+            "note": SIM_NOTE, "technique": "deterministic simulation + bounded-liveness oracle at idle points"},
+    "C14": {"text": "Every value written by an LS transaction in any fleet run of the profile is parsed by an independent header parser "
+                    "(version, flags, reserved, extension count, txn id of the writing transaction, empty value when deleted); malformed stored values "
+                    "are injected and must stop the instance with an error instead of being uploaded.",
+            "note": SIM_NOTE + " The universe of all byte strings is sampled only through what simulated applications store.",
+            "technique": "deterministic simulation + independent header parser as invariant, stored-byte faults"},
+}
